@@ -824,6 +824,7 @@ func Choose(n int) int {
 	g := s.cur
 	c := s.choose(n, 0, 2, mix(0xc0, uint64(n)))
 	s.touch(uintptr(g.gh)|1, g, mix(0xc1, uint64(c)))
+	s.fps = append(s.fps, mix(s.fp, uint64(s.now)))
 	if s.cfg.KeepTrace {
 		s.Trace = append(s.Trace, fmt.Sprintf("[%d] g%d choose/%d -> %d", s.now, g.id, n, c))
 	}
